@@ -1,4 +1,5 @@
 import Vet.Model.Wire
+import Vet.Model.Commands
 open Vet Vet.Wire
 
 structure DState where
@@ -117,6 +118,31 @@ def handle (st : DState) (kw : String) (toks : List Nat) : DState × String :=
         match k with
         | .plain n => [n, 0]
         | .withVersion n v => [n, v + 1])))
+  | "cmdmode" =>
+    -- the mode a command hands to the updater for crate `name` (Vet/Model/Commands.lean)
+    match toks with
+    | [code, a, b, c, pkg, name] =>
+      let cmd : Option Cmd := match code with
+        | 0 => some .check
+        | 1 => some (.prune (a != 0) (b != 0) (c != 0))
+        | 2 => some .regenerateImports
+        | 3 => some .regenerateExemptions
+        | 4 => some .regenerateUnpublished
+        | 5 => some .init
+        | 6 => some .importPeer
+        | 7 => some (.certify pkg)
+        | 8 => some (.trust pkg)
+        | _ => none
+      match cmd with
+      | none => (st, "bad-case")
+      | some cmd =>
+        let m := cmd.modeOf name
+        let sm := match m.search with
+          | .preferExemptions => 0
+          | .preferFreshImports => 1
+          | .regenerateExemptions => 2
+        (st, "ok " ++ show_ [sm, b2n m.pruneExemptions, b2n m.pruneNonImportable, b2n m.pruneImports])
+    | _ => (st, "bad-case")
   | "world" =>
     match run world toks with
     | none => (st, "bad-case")
